@@ -249,6 +249,10 @@ def run(tier, seed):
     chk.add_rule("C04.S.function_and_code_from_one_cached_pair", ok, sites, failing)
     ok, sites, failing = frame.rule_names()
     chk.add_rule("C04.S.names_reserved", ok, sites, failing)
+    from ..kernels import c04_fuse
+    from ..kernels.base import run_kernel
+    for k in c04_fuse.KERNELS:
+        chk.add_kernel(run_kernel(k, tier))
     n = 12 if tier == "quick" else 600
     res = [x for r in harness.pmap(_work, [(seed, i) for i in range(n)]) for x in r]
     m = 16 if tier == "quick" else 800
@@ -275,6 +279,7 @@ def run(tier, seed):
                     note=f"{len([u for u in unsupported if u in syn])} outside the comparator's subset")
     chk.add_bounded("name generator stress (30 / 60 / 420 / 400x2 variable groups)", "4 calls", len(names), len(names), failures=[f for f in fails if f in names])
     chk.trusted += ["reference IR interpreter vf/spec/irinterp.py", "term comparator vf/spec/termcmp.py (renaming apart of straight-line text)"]
-    chk.assumptions += ["x[(k,)] is x[k] (the emitter prints a 1-tuple key without the tuple)", "vmap-style nested definitions only synthetic", "equivalence for graphs beyond the enumeration bound is not decided"]
+    chk.assumptions += ["x[(k,)] is x[k] (the emitter prints a 1-tuple key without the tuple)", "vmap-style nested definitions only synthetic", "equivalence for graphs beyond the enumeration bound is not decided",
+                        "C04.P.fuse_liveness proves the guard of name sharing (all readers already emitted in the same block); that this guard implies 'no needed value is overwritten' for the emitted statement order is the paper step of Appendix A"]
     chk.explanation = "postcondition of compile(): E1 text parses, E2 closed, E3/E4/E5 by input-independent term equality between the renamed-apart text and the IR graph plus concrete execution of the returned text in an empty namespace, E6 by syntactic rule (the exec'ed local is the returned local)"
     return chk
